@@ -486,9 +486,104 @@ def scale_oracle(ctx, xt):
                 pass
 
 
+def aliasing_and_batch_oracle(ctx, xt):
+    """(1) operators whose product hands back its ARGUMENT (identity) or a view of it (restriction) inside expressions: the
+    caller's vector is left untouched and every product describes the expression's matrix (round-3 seed C11/8: the scaled
+    operator multiplied the operand's result in place);  (2) operands of an expression with DIFFERENT batch shapes: the result
+    has the broadcast batch shape and mv / mm / rmv / rmm / fullmatrix / .H agree with the dense expression (round-3 seed C11/9:
+    the batch shape of a product taken from the left operand only)"""
+    DTs = (torch.float64, torch.complex128)
+
+    class Ident(xt.LinearOperator):
+        def __init__(self, n, dtype):
+            super().__init__(shape=(n, n), is_hermitian=False, dtype=dtype)
+
+        def _mv(self, x):
+            return x
+
+        def _getparamnames(self, prefix=""):
+            return []
+
+    class Restrict(xt.LinearOperator):
+        def __init__(self, k, n, dtype):
+            super().__init__(shape=(k, n), is_hermitian=False, dtype=dtype)
+            self.k = k
+
+        def _mv(self, x):
+            return x[..., :self.k]          # a view of the argument
+
+        def _getparamnames(self, prefix=""):
+            return []
+    g = torch.Generator().manual_seed(ctx.seed + 5)
+    for dtype in DTs:
+        n, k = 4, 2
+        Bm = torch.randn(n, n, dtype=dtype, generator=g)
+        eye = torch.eye(n, dtype=dtype)
+        exprs = [("3*I", lambda: Ident(n, dtype) * 3, 3 * eye),
+                 ("I*(-2)", lambda: -2 * Ident(n, dtype), -2 * eye),
+                 ("3*I+B", lambda: Ident(n, dtype) * 3 + xt.LinearOperator.m(Bm, is_hermitian=False), 3 * eye + Bm),
+                 ("B@(2*I)", lambda: xt.LinearOperator.m(Bm, is_hermitian=False).matmul(2 * Ident(n, dtype)), 2 * Bm),
+                 ("(2*R)", lambda: 2 * Restrict(k, n, dtype), 2 * eye[:k]),
+                 ("(2*R)@B", lambda: (2 * Restrict(k, n, dtype)).matmul(xt.LinearOperator.m(Bm, is_hermitian=False)), 2 * Bm[:k])]
+        for nm, mk, dense in exprs:
+            op = mk()
+            x = torch.randn(n, dtype=dtype, generator=g)
+            X = torch.randn(n, 3, dtype=dtype, generator=g)
+            xk, Xk = x.clone(), X.clone()
+            info = {"expression": nm, "dtype": str(dtype)}
+            ctx.count(("aliasing", nm, str(dtype)))
+            try:
+                y1, y2 = op.mv(x), op.mv(x)
+                Y1, Y2 = op.mm(X), op.mm(X)
+                fm = op.fullmatrix()
+            except Exception as e:
+                ctx.fail("oracle", "linop:aliasing:exception", info, repr(e)[:200], "products")
+                continue
+            if not torch.equal(x, xk) or not torch.equal(X, Xk):
+                ctx.fail("oracle", "linop:aliasing:operand-modified", info, {"x_after": x.tolist()}, {"x_before": xk.tolist()})
+                continue
+            for what, got, want in (("mv", y1, dense @ xk), ("mv-second-call", y2, dense @ xk), ("mm", Y1, dense @ Xk), ("mm-second-call", Y2, dense @ Xk),
+                                    ("fullmatrix", fm, dense)):
+                if got.shape != want.shape or not torch.allclose(got, want, rtol=1e-12, atol=1e-12):
+                    ctx.fail("oracle", "linop:aliasing:%s" % what, info, got, want)
+                    break
+    # (2) different batch shapes of the operands
+    for dtype in DTs:
+        n = 3
+        for ba, bb in (((), (2,)), ((2,), ()), ((1, 2), (3, 1, 1)), ((2,), (2,)), ((), (2, 3))):
+            A0 = torch.randn(*ba, n, n, dtype=dtype, generator=g)
+            B0 = torch.randn(*bb, n, n, dtype=dtype, generator=g)
+            full = tuple(torch.broadcast_shapes(ba, bb))
+            mkA = [("dense", lambda: xt.LinearOperator.m(A0, is_hermitian=False)), ("user", lambda: leaf_class(xt, (True, True, True, True))(A0, 0, False))]
+            mkB = [("dense", lambda: xt.LinearOperator.m(B0, is_hermitian=False)), ("user", lambda: leaf_class(xt, (False, False, False, False))(B0, 1, False))]
+            for (ka, fa), (kb, fb) in ((mkA[0], mkB[1]), (mkA[1], mkB[0]), (mkA[1], mkB[1])):
+                for enm, mk, dense in (("a@b", lambda: fa().matmul(fb()), A0 @ B0), ("a+b", lambda: fa() + fb(), A0 + B0), ("a-b", lambda: fa() - fb(), A0 - B0)):
+                    info = {"expression": enm, "a": ka, "b": kb, "a_batch": list(ba), "b_batch": list(bb), "dtype": str(dtype)}
+                    ctx.count(("batch-mix", enm, ka, kb, ba, bb, str(dtype)))
+                    try:
+                        op = mk()
+                        x = torch.randn(n, dtype=dtype, generator=g)
+                        X = torch.randn(n, 2, dtype=dtype, generator=g)
+                        res = {"shape": list(op.shape), "mv": op.mv(x), "mm": op.mm(X), "rmv": op.rmv(x), "rmm": op.rmm(X),
+                               "fullmatrix": op.fullmatrix(), "H.fullmatrix": op.H.fullmatrix()}
+                    except Exception as e:
+                        ctx.fail("oracle", "linop:batch-mix:exception", info, repr(e)[:200], "products with the broadcast batch shape")
+                        continue
+                    dH = dense.transpose(-2, -1).conj()
+                    want = {"shape": list(full) + [n, n], "mv": dense @ x, "mm": dense @ X, "rmv": dH @ x, "rmm": dH @ X, "fullmatrix": dense,
+                            "H.fullmatrix": dH}
+                    for key in want:
+                        gv, wv = res[key], want[key]
+                        ok = gv == wv if key == "shape" else (gv.shape == wv.shape and torch.allclose(gv, wv, rtol=1e-10, atol=1e-10))
+                        if not ok:
+                            ctx.fail("oracle", "linop:batch-mix:%s" % key, info, gv if key == "shape" else list(gv.shape), wv if key == "shape" else list(wv.shape))
+                            break
+
+
 def check(ctx):
     import xitorch as xt
     cases, meta = [], []
+    aliasing_and_batch_oracle(ctx, xt)
     flags_cases(ctx, xt, cases, meta)
     expr_cases(ctx, xt, cases, meta)
     shape_oracle(ctx, xt)
